@@ -626,7 +626,7 @@ def search_stream(run):
 PROPS['C20'] = {
     'modules': ['IpcModel.Props.C20'],
     'theorems': ['C20.C20_forward', 'C20.C20_registration', 'C20.C20_inv_init', 'C20.C20_inv_step', 'C20.C20_msg_forward', 'C20.C20_isolation',
-                 'C20.C20_closed_ends', 'C20.C20_unknown_ignored', 'Async.events_forward', 'Async.drain_spec'],
+                 'C20.C20_closed_ends', 'C20.C20_unknown_ignored', 'Async.events_forward', 'Async.drain_spec', 'C20.C20_shape'],
     'builds': ['async'],
     'scenarios': stream_scen(240, 6000),
     'search': search_stream,
